@@ -612,7 +612,7 @@ func (in *Interp) initExterns() {
 			bit := ts.Ne(ts.Bin(OpBAnd, x, ts.Const(64, uint64(1)<<uint(i))), ts.Const(64, 0))
 			r = ts.Ite(bit, ts.Const(64, uint64(i)), r)
 		}
-		return r
+		return in.concretizeByModel(r, "math/bits.TrailingZeros64")
 	}
 	E["math/bits.TrailingZeros32"] = func(in *Interp, _ *frame, _ *ssa.Function, a []value) value {
 		x := a[0].(*Term)
@@ -621,7 +621,7 @@ func (in *Interp) initExterns() {
 			bit := ts.Ne(ts.Bin(OpBAnd, x, ts.Const(32, uint64(1)<<uint(i))), ts.Const(32, 0))
 			r = ts.Ite(bit, ts.Const(64, uint64(i)), r)
 		}
-		return r
+		return in.concretizeByModel(r, "math/bits.TrailingZeros32")
 	}
 	E["math/bits.Len64"] = func(in *Interp, _ *frame, _ *ssa.Function, a []value) value {
 		x := a[0].(*Term)
@@ -630,7 +630,7 @@ func (in *Interp) initExterns() {
 			bit := ts.Ne(ts.Bin(OpBAnd, x, ts.Const(64, uint64(1)<<uint(i))), ts.Const(64, 0))
 			r = ts.Ite(bit, ts.Const(64, uint64(i+1)), r)
 		}
-		return r
+		return in.concretizeByModel(r, "math/bits.Len64")
 	}
 	E["math/bits.Len32"] = func(in *Interp, _ *frame, _ *ssa.Function, a []value) value {
 		x := a[0].(*Term)
@@ -639,7 +639,7 @@ func (in *Interp) initExterns() {
 			bit := ts.Ne(ts.Bin(OpBAnd, x, ts.Const(32, uint64(1)<<uint(i))), ts.Const(32, 0))
 			r = ts.Ite(bit, ts.Const(64, uint64(i+1)), r)
 		}
-		return r
+		return in.concretizeByModel(r, "math/bits.Len32")
 	}
 	E["math.Float64bits"] = func(in *Interp, _ *frame, _ *ssa.Function, a []value) value { return a[0] }
 	E["math.Float64frombits"] = func(in *Interp, _ *frame, _ *ssa.Function, a []value) value { return a[0] }
